@@ -257,7 +257,7 @@ def partitions(tier, seed):
     parts.append(Part('containers', [('v', NOFLOAT), ('k', 'str')], UPRE + ['len(k) <= 1'], CONTAINERS, PRE, 280,
                       family='union_value', bound='[v], {k: v}, {k: [v, None]} and non-containers into the container encoders',
                       rep={'v': 70000, 'k': 'k'}))
-    for lit, n in (('a', 256), ('é', 128), ('a', 129)):
+    for lit, n in (('a', 256), ('é', 128), ('a', 129), ('é', 65), ('a', 128)):
         parts.append(Part('overlong_%s_%d' % ('a' if lit == 'a' else 'e', n), [('x', 'int')], ['-2**15 <= x < 2**15'],
                           'def body(x):\n'
                           '    s = %r * %d\n'
